@@ -1,8 +1,117 @@
-(* C05 property theorems: statements only, each closed by `exact`, with Print Assumptions. *)
-From Coq Require Import ZArith QArith List Bool Arith.
-From QE Require Import Base.Num C05.Model C05.PureNash C05.Proofs.
+(* C05 property theorems: statements only, each closed by `exact`, with Print Assumptions.
+   Bimatrix game: A (m x n) payoffs of player 0, Bt (n x m) payoff array of player 1 (own action first);
+   Af A i j = A[i][j], Bf Bt i j = Bt[j][i].  is_nash_fn m n A B x y: x, y are probability vectors and no pure
+   action earns more than the mixed action played (hence no mixed deviation either: C05_nash_no_deviation). *)
+From Coq Require Import ZArith NArith QArith List Bool Arith Permutation.
+From QE Require Import Base.Num Base.LinAlg C05.Model C05.PureNash C05.Proofs C05.Proofs2 C05.Proofs3 C05.Proofs4 C05.Proofs5 C05.ProofsPure.
+From QE Require C14.Model C14.Proofs C14.Proofs3.
 Import ListNotations.
 
-Theorem C05_iter_nat_0 : forall (S R : Type) (step : S -> S + R) s, iter_nat step 0 s = inl s.
-Proof. exact @iter_nat_0. Qed.
-Print Assumptions C05_iter_nat_0.
+Theorem C05_complementary_is_nash : forall (m n : nat) (A B : nat -> nat -> Q) (x y : nat -> Q),
+  (forall i, (i < m)%nat -> 0 <= x i)%Q -> (forall j, (j < n)%nat -> 0 <= y j)%Q ->
+  (forall j, (j < n)%nat -> col_payoff m B x j <= 1)%Q -> (forall i, (i < m)%nat -> row_payoff n A y i <= 1)%Q ->
+  (forall i, (i < m)%nat -> x i * (1 - row_payoff n A y i) == 0)%Q ->
+  (forall j, (j < n)%nat -> y j * (1 - col_payoff m B x j) == 0)%Q ->
+  (0 < sumQ m x)%Q -> (0 < sumQ n y)%Q ->
+  is_nash_fn m n A B (fun i => x i / sumQ m x)%Q (fun j => y j / sumQ n y)%Q.
+Proof. exact complementary_is_nash. Qed.
+Print Assumptions C05_complementary_is_nash.
+
+Theorem C05_nash_shift_invariant : forall (m n : nat) (A B : nat -> nat -> Q) (c0 c1 : Q) (x y : nat -> Q),
+  is_nash_fn m n (fun i j => A i j + c0)%Q (fun i j => B i j + c1)%Q x y <-> is_nash_fn m n A B x y.
+Proof. exact nash_shift_invariant. Qed.
+Print Assumptions C05_nash_shift_invariant.
+
+Theorem C05_nash_no_deviation : forall (m n : nat) (A B : nat -> nat -> Q) (x y : nat -> Q), is_nash_fn m n A B x y ->
+  (forall x', prob m x' -> sumQ m (fun i => x' i * row_payoff n A y i) <= sumQ m (fun i => x i * row_payoff n A y i))%Q /\
+  (forall y', prob n y' -> sumQ n (fun j => col_payoff m B x j * y' j) <= sumQ n (fun j => col_payoff m B x j * y j))%Q.
+Proof. exact is_nash_fn_no_deviation. Qed.
+Print Assumptions C05_nash_no_deviation.
+
+(* every pair yielded by the support-enumeration model (exact instance) is a pair of probability vectors and a
+   Nash equilibrium; all shapes m, n, all payoffs (degenerate or not) *)
+Theorem C05_support_enum_sound : forall (m n : nat) (A Bt : list (list Q)) (x y : list Q),
+  In (x, y) (support_enumeration m n A Bt) -> is_nash_fn m n (Af A) (Bf Bt) (LinAlg.vget x) (LinAlg.vget y).
+Proof. exact support_enum_sound. Qed.
+Print Assumptions C05_support_enum_sound.
+
+(* not proved (decided by the independent exact oracle on games certified non-degenerate): completeness.
+   Non-degenerate: against every mixed action the number of pure best responses is at most the support size. *)
+Definition supp_size (k : nat) (x : nat -> Q) : nat := length (filter (fun i => negb (Qeq_bool (x i) 0)) (seq 0 k)).
+Definition n_best (k : nat) (p : nat -> Q) : nat :=
+  length (filter (fun i => forallb (fun i' => Qle_bool (p i') (p i)) (seq 0 k)) (seq 0 k)).
+Definition nondegenerate (m n : nat) (A B : nat -> nat -> Q) : Prop :=
+  (forall x, prob m x -> (n_best n (col_payoff m B x) <= supp_size m x)%nat) /\
+  (forall y, prob n y -> (n_best m (row_payoff n A y) <= supp_size n y)%nat).
+Definition support_enum_complete_full : Prop := forall (m n : nat) (A Bt : list (list Q)),
+  nondegenerate m n (Af A) (Bf Bt) ->
+  forall x y, length x = m -> length y = n ->
+  is_nash_fn m n (Af A) (Bf Bt) (LinAlg.vget x) (LinAlg.vget y) ->
+  exists x' y', In (x', y') (support_enumeration m n A Bt) /\
+                (forall i, LinAlg.vget x' i == LinAlg.vget x i)%Q /\ (forall j, LinAlg.vget y' j == LinAlg.vget y j)%Q.
+
+(* pure_nash_brute (any number of players): the list is the sub-list of np.ndindex order selected by is_nash, and
+   is_nash selects exactly the pure profiles from which no player gains more than tol by deviating *)
+Theorem C05_pure_nash_brute_exact : forall (g : C14.Model.game Q) (nums : list nat) (tol : Q),
+  C14.Proofs.consistent g nums ->
+  pure_nash_brute g tol = filter (fun a => C14.Model.is_nash g (map (@C14.Model.Pure Q) a) tol) (C14.Model.indices nums) /\
+  (forall a, C14.Proofs.inr nums a ->
+     (C14.Model.is_nash g (map (@C14.Model.Pure Q) a) tol = true <-> pure_nash_def g nums tol a)) /\
+  (forall a, In a (pure_nash_brute g tol) <-> C14.Proofs.inr nums a /\ pure_nash_def g nums tol a).
+Proof. exact pure_nash_brute_exact. Qed.
+Print Assumptions C05_pure_nash_brute_exact.
+
+(* vertex enumeration: labelings as bit masks *)
+Theorem C05_xor_complete_iff_partition : forall (S0 S1 : list N) (L : N),
+  (forall x, In x (S0 ++ S1) -> (x < L)%N) ->
+  (N.lxor (ints_to_bits S0) (ints_to_bits S1) = N.ones L <-> forall l, (l < L)%N -> (In l S0 <-> ~ In l S1)).
+Proof. exact xor_complete_iff_partition. Qed.
+Print Assumptions C05_xor_complete_iff_partition.
+
+(* exact Nash test used to certify, run by run, the outputs of the exact Lemke-Howson model *)
+Theorem C05_nash_checkb_sound : forall (m n : nat) (A Bt : list (list Q)) (x y : list Q),
+  nash_checkb m n A Bt x y = true -> is_nash_fn m n (Af A) (Bf Bt) (LinAlg.vget x) (LinAlg.vget y).
+Proof. exact nash_checkb_sound. Qed.
+Print Assumptions C05_nash_checkb_sound.
+
+(* Lemke-Howson, every arithmetic instance (also floats), every tolerance, initial pivot, max_iter and capping:
+   when convergence is reported, every label 0..m+n-1 is basic in exactly one of the two tableaux *)
+Theorem C05_lh_converged_complementary_partial :
+  forall (T : Type) (NT : Num T) (tol_piv tol_ratio_diff : T) (m n : nat) (A Bt : list (list T))
+         (init_pivot : nat) (max_iter capping : Z),
+  (0 < m)%nat -> (0 < n)%nat ->
+  let '(st, conv, _, _) := lh_capping tol_piv tol_ratio_diff m n A Bt init_pivot max_iter capping in
+  conv = true -> Permutation (lh_labels st) (seq 0 (m + n)).
+Proof. exact @lh_converged_complementary_labels. Qed.
+Print Assumptions C05_lh_converged_complementary_partial.
+
+(* full statement, not proved (needs feasibility of both tableaux and the row invariant along the path; decided
+   run by run by C05_nash_checkb_sound on the exact model's output and by the oracle on the implementation's) *)
+Definition lh_converged_nash_full : Prop :=
+  forall (m n : nat) (A Bt : list (list Q)) (init_pivot : nat) (max_iter : Z) (capping : option Z),
+  (0 < m)%nat -> (0 < n)%nat -> (init_pivot < m + n)%nat ->
+  let '(ne, conv, _, _) := lemke_howson (T:=Q) 0%Q 0%Q m n A Bt init_pivot max_iter capping in
+  conv = true -> is_nash_fn m n (Af A) (Bf Bt) (LinAlg.vget (fst ne)) (LinAlg.vget (snd ne)).
+
+(* ---- hypotheses are satisfiable / the models produce non-trivial objects *)
+Definition ex_A : list (list Q) := [[3; 0]; [0; 2]]%Q.      (* battle-of-the-sexes-like, A and B^T *)
+Definition ex_Bt : list (list Q) := [[2; 0]; [0; 3]]%Q.
+Example ex_support_enumeration :
+  support_enumeration 2 2 ex_A ex_Bt = [([1; 0], [1; 0]); ([0; 1], [0; 1]); ([3 # 5; 2 # 5], [2 # 5; 3 # 5])]%Q.
+Proof. vm_compute. reflexivity. Qed.
+Example ex_lemke_howson :
+  lemke_howson (T:=Q) 0%Q 0%Q 2 2 ex_A ex_Bt 1 1000000 None = (([0; 1], [0; 1])%Q, true, 2%Z, 1%nat) /\
+  nash_checkb 2 2 ex_A ex_Bt [0; 1]%Q [0; 1]%Q = true.
+Proof. vm_compute. split; reflexivity. Qed.
+Example ex_complementary : let A := fun i j : nat => if Nat.eqb i j then 1%Q else 0%Q in
+  let x := fun i : nat => if Nat.eqb i 0 then 1%Q else 0%Q in
+  (forall i, (i < 2)%nat -> x i * (1 - row_payoff 2 A x i) == 0)%Q /\ (0 < sumQ 2 x)%Q /\
+  (forall i, (i < 2)%nat -> row_payoff 2 A x i <= 1)%Q.
+Proof.
+  cbv zeta. split; [|split].
+  - intros [|[|i]] Hi; [vm_compute; reflexivity | vm_compute; reflexivity | exfalso; apply (Nat.nlt_0_r i); now do 2 apply Nat.succ_lt_mono].
+  - vm_compute. reflexivity.
+  - intros [|[|i]] Hi; [vm_compute; discriminate | vm_compute; discriminate | exfalso; apply (Nat.nlt_0_r i); now do 2 apply Nat.succ_lt_mono].
+Qed.
+Example ex_pure_nash : pure_nash_brute (T:=Q) [([2; 2]%nat, [3; 0; 0; 2]%Q); ([2; 2]%nat, [2; 0; 0; 3]%Q)] 0%Q = [[0; 0]; [1; 1]]%nat.
+Proof. vm_compute. reflexivity. Qed.
